@@ -31,8 +31,16 @@ def sha(path):
         return None
 
 
+def g_repo(group):
+    return group.get("repo", REPO)
+
+
+def g_hdir(group):
+    return group.get("harness_dir_abs") or os.path.join(VERIF, group["harness_dir"])
+
+
 def list_harnesses(group):
-    r = subprocess.run([GOSYM, "-repo", REPO, "-pkg", group["pkg"], "-harness-dir", os.path.join(VERIF, group["harness_dir"]),
+    r = subprocess.run([GOSYM, "-repo", g_repo(group), "-pkg", group["pkg"], "-harness-dir", g_hdir(group),
                         "-run", group["run"], "-list"], env=ENV, capture_output=True, text=True)
     if r.returncode != 0:
         return None, r.stdout + r.stderr
@@ -41,7 +49,7 @@ def list_harnesses(group):
 
 def run_shard(args):
     group, names, tier, cfgpath, out, tmo = args
-    cmd = [GOSYM, "-repo", REPO, "-pkg", group["pkg"], "-harness-dir", os.path.join(VERIF, group["harness_dir"]),
+    cmd = [GOSYM, "-repo", g_repo(group), "-pkg", group["pkg"], "-harness-dir", g_hdir(group),
            "-run", "|".join(names), "-tier", tier, "-cfg", cfgpath, "-kf", os.path.join(VERIF, "known_findings.json"),
            "-out", out, "-solver-timeout-ms", str(tmo)]
     t0 = time.time()
@@ -51,8 +59,8 @@ def run_shard(args):
 
 def replay(group, cexs, workdir):
     """cexs: list of (path, cex). Returns {path: outcome}."""
-    hdir = os.path.join(VERIF, group["harness_dir"])
-    pkgdir = os.path.normpath(os.path.join(REPO, group["pkg"]))
+    hdir = g_hdir(group)
+    pkgdir = os.path.normpath(os.path.join(g_repo(group), group["pkg"]))
     repl = {}
     for f in sorted(os.listdir(hdir)):
         if not f.endswith(".go"):
@@ -117,6 +125,21 @@ def main():
     load_errors = []
     try:
         jobs = []
+        tv_info = []
+        if spec.get("prepare"):
+            r = subprocess.run([os.path.join(VERIF, spec["prepare"]), work, REPO], env=ENV, capture_output=True, text=True)
+            sys.stderr.write(r.stderr)
+            try:
+                extra = json.loads(r.stdout)
+            except ValueError:
+                extra = []
+                load_errors.append("prepare step failed: " + (r.stdout + r.stderr)[-300:])
+            for g in extra:
+                if "error" in g:
+                    load_errors.append("prepare: " + g["error"])
+                else:
+                    spec["groups"].append(g)
+                    tv_info.append(g.get("tv"))
         for gi, g in enumerate(spec["groups"]):
             names, err = list_harnesses(g)
             if names is None:
@@ -220,6 +243,8 @@ def main():
                     samples.append({"harness": ro["harness"], "case": s})
         src_files = {}
         for g in spec["groups"]:
+            if "repo" in g:
+                continue
             d = os.path.normpath(os.path.join(REPO, g["pkg"]))
             for f in sorted(glob.glob(d + "/*.go")):
                 if not f.endswith("_test.go"):
@@ -246,6 +271,9 @@ def main():
                 "unconfirmed_counterexamples": [{"file": os.path.relpath(p, VERIF), "obligation": c["obligation"], "harness": c["harness"], "replay": oc} for p, c, oc in unconfirmed],
                 "known_findings_matched": sorted(set(kf_lines)),
                 "outside_claim": spec.get("outside_claim", []),
+                "translation_validation": tv_info,
+                "programs": sum(1 for ro in runs if ro["harness"].startswith("VH_TV_")) or len(runs),
+                "disagreements_checked": n_obl,
                 "checker_cmd": "./check.py %s --tier %s" % (a.prop, a.tier),
                 "trusted_base": ["go/ssa (x/tools v0.29.0)", "gosym instruction semantics and intrinsic models", "harness reference models and invariants under /verif/harness", "z3 4.8.12 / cvc5 1.0.x / z3 5.1.0"],
             },
